@@ -35,6 +35,8 @@ import (
 	"time"
 
 	"verif/core"
+	"verif/seqx"
+	"verif/sig"
 )
 
 // shardPart names the family this shard process works for ("" in the
@@ -351,6 +353,20 @@ func replay(path string) {
 		v = replayParsers(a.Sub, a.Replay)
 	case a.Sub == "precondition-headers":
 		v = replayPrecond(a.Replay)
+	case a.Sub == delayedConfig().Name:
+		var r struct {
+			Ops []dop `json:"ops"`
+		}
+		if err := json.Unmarshal(a.Replay, &r); err != nil {
+			fmt.Println(err)
+			os.Exit(2)
+		}
+		ops := make([]seqx.Op, len(r.Ops))
+		for i, x := range r.Ops {
+			ops[i] = x
+		}
+		v = seqx.Replay(delayedConfig(), ops)
+		sig.Cleanup()
 	case strings.HasPrefix(a.Sub, "http") || strings.HasPrefix(a.Sub, "sdpfrag"):
 		v = replayHTTP(a.Sub, a.Replay)
 	default:
